@@ -37,35 +37,52 @@ def or_constants(v, phi_local):
             x = b
         else:
             return None
-    if x[0] == "phi" and x[2] == ("local", phi_local):
+    L = phi_local if isinstance(phi_local, tuple) else ("local", phi_local)
+    if (x[0] == "phi" and x[2] == L) or x == ("init", L):
         return cs
     return None
 
 
 def flag_sets(ctx, s, fn, var):
-    """[(block, stmt, [consts], facts)] for every `var |= const` in fn; plus the initial value"""
+    """(flags location, initial value, [(block, stmt, [consts], facts)] for every `flags |= const`, other assignments).
+    The flags live in the local named `var` of the function itself, or - when the parser state was moved into a struct
+    or renamed - in the location that is OR-ed with constant one-bit masks most often."""
     an = ctx.E.an(fn)
     loc = [i for i, l in enumerate(fn.locals) if l.get("n") == var and "inl" not in l]
     from ..main import AnalysisError
-    if len(loc) != 1:
-        raise AnalysisError("flags variable %s not found in %s" % (var, fn.nice))
-    k = loc[0]
+    if len(loc) == 1:
+        K = ("local", loc[0])
+    else:
+        cnt = {}
+        for (b, i), L in an.stmt_loc.items():
+            v = an.stmt_val[(b, i)]
+            if L[0] in ("local", "field") and v[0] == "bin" and v[1] == "BitOr" and or_constants(v, L) is not None:
+                cnt[L] = cnt.get(L, 0) + 1
+        if not cnt:
+            raise AnalysisError("no member-flags variable (a location OR-ed with constant masks) found in %s" % fn.nice)
+        K = max(sorted(cnt, key=repr), key=lambda L: cnt[L])
     sets = []
     init = None
     other = []
     for (b, i), L in sorted(an.stmt_loc.items(), key=lambda kv: (kv[0][0], str(kv[0][1]))):
-        if L != ("local", k):
+        if L != K:
             continue
         v = an.stmt_val[(b, i)]
         if v[0] == "const":
             init = v[1]
             continue
-        cs = or_constants(v, k)
+        cs = or_constants(v, K)
         if cs is None:
             other.append((b, i, v))
         else:
             sets.append((b, i, cs, ctx.E.facts(fn, b)))
-    return k, init, sets, other
+    if init is None and K[0] == "field":
+        # the initial value is a field of the aggregate the state struct was built from
+        for v in an.stmt_val.values():
+            if v is not None and v[0] == "agg" and K[2] < len(v[2]) and v[2][K[2]][0] == "const" and \
+                    an.stmt_loc.get(next(k_ for k_, vv in an.stmt_val.items() if vv is v)) == K[1]:
+                init = v[2][K[2]][1]
+    return K, init, sets, other
 
 
 def dup_tested(facts, k, c):
@@ -79,7 +96,7 @@ def dup_tested(facts, k, c):
                 a, b = v[2], v[3]
                 m = b if b[0] == "const" else a
                 fl = a if b[0] == "const" else b
-                if m[0] == "const" and m[1] == c and fl[0] == "phi" and fl[2] == ("local", k):
+                if m[0] == "const" and m[1] == c and fl[0] == "phi" and fl[2] == (k if isinstance(k, tuple) else ("local", k)):
                     return True
         if f[0] in ("nec", "ne"):
             v = f[1]
@@ -89,7 +106,7 @@ def dup_tested(facts, k, c):
                 a, b = v[2], v[3]
                 m = b if b[0] == "const" else a
                 fl = a if b[0] == "const" else b
-                if m[0] == "const" and m[1] == c and fl[0] == "phi" and fl[2] == ("local", k):
+                if m[0] == "const" and m[1] == c and fl[0] == "phi" and fl[2] == (k if isinstance(k, tuple) else ("local", k)):
                     return True
     return False
 
@@ -141,7 +158,7 @@ def member_flags(ctx, s, parser, var, names_expected, final_mask_check=True):
             v = f[1]
             if isinstance(v, tuple) and v and v[0] == "bin" and v[1] == "BitAnd":
                 a_, b_ = v[2], v[3]
-                fl, m = (a_, b_) if (a_[0] == "phi" and a_[2] == ("local", k)) else ((b_, a_) if (b_[0] == "phi" and b_[2] == ("local", k)) else (None, None))
+                fl, m = (a_, b_) if (a_[0] == "phi" and a_[2] == (k if isinstance(k, tuple) else ("local", k))) else ((b_, a_) if (b_[0] == "phi" and b_[2] == (k if isinstance(k, tuple) else ("local", k))) else (None, None))
                 if fl is not None and m[0] != "const":
                     computed = True
         verdict = PROVED if ok else (UNDECIDED if computed else VIOLATION)
@@ -177,7 +194,7 @@ def member_flags(ctx, s, parser, var, names_expected, final_mask_check=True):
         okm = bool(oks)
         for n in oks:
             fs = ctx.E.facts(fn, n)
-            if not any(f[0] == "eqc" and f[2] == mask and contains_value(f[1], lambda x: x[0] == "phi" and x[2] == ("local", k)) for f in fs):
+            if not any(f[0] == "eqc" and f[2] == mask and contains_value(f[1], lambda x: x[0] == "phi" and x[2] == (k if isinstance(k, tuple) else ("local", k))) for f in fs):
                 okm = False
         s.add("S-COVER", fn, "completeness-mask", "0x%x" % mask, fn.sp, PROVED if okm else VIOLATION,
               "success requires %s == 0x%x, the union of all member flags" % (var, mask) if okm else
